@@ -2,7 +2,7 @@
    The writer is a generator of operating-system events ([named_trace]); [fs_run] gives the events a file-system meaning
    (open truncates/creates, write appends, rename replaces atomically).  A crash at any instant = any PREFIX of the trace.
    Atomicity of rename and "handed to the OS" are this semantics (trusted), not the kernel's.  Only statements here. *)
-Require Import Base Writer WriterProofs.
+Require Import Base Exporter Writer WriterProofs FileProofs ExporterIO ExporterIOProofs ExporterFiles.
 Local Open Scope N_scope.
 
 (* for every scenario (any writes in any chunking, any rotations - also back onto a name used before or onto a file that existed
@@ -38,6 +38,23 @@ Proof.
   apply in_map_iff in Hm. destruct Hm as ([m cs] & Heq & Hin). inversion Heq; subst. exists cs. auto.
 Qed.
 Print Assumptions C15_compressed.
+
+(* the whole stack, for exporter histories: a crash at ANY instant of ANY history of a named exporter leaves under a final name the file that
+   was there before, or one of the exporter's outputs, complete *)
+Theorem C15_exporter : forall (f0 : fs) pre ops ids n0 k n c, let x := xrun (x_new pre) ops in
+  fs_run f0 (firstn k (named_trace n0 (run_wops (x_new pre) ops ids ++ destroy_wops x) true)) (Final n) = Some c ->
+  f0 (Final n) = Some c \/ In c (x_closed x) \/ c = destroy x.
+Proof. exact exporter_named_prefix. Qed.
+Print Assumptions C15_exporter.
+
+(* ... and, for admissible histories, such an output is a complete C-DNS file: the reader reads it to the end and obtains exactly the blocks
+   written to it (an output closed without a block is the empty file) *)
+Theorem C15_exporter_files : forall (f0 : fs) pre ops ids n0 k n c, typed_pre pre -> adm0 pre ops -> typed_x (xrun (x_new pre) ops) ->
+  let x := xrun (x_new pre) ops in
+  fs_run f0 (firstn k (named_trace n0 (run_wops (x_new pre) ops ids ++ destroy_wops x) true)) (Final n) = Some c ->
+  f0 (Final n) = Some c \/ exists p bs, c = file_bytes p bs /\ reads_back (p, bs).
+Proof. exact exporter_named_files. Qed.
+Print Assumptions C15_exporter_files.
 
 Example C15_nonvacuous :
   let f0 : fs := fun p => match p with Final 2 => Some [9; 9] | _ => None end in
